@@ -95,9 +95,22 @@ where
             // before we can do anything else.
             if buffered_req.is_some() && server.is_some() {
                 let si = &mut server.as_mut().as_pin_mut().unwrap().0;
-                // Unwrapping is safe as the underlying sink is guaranteed not to error
-                ready!(si.poll_ready_unpin(cx)).unwrap();
-                si.start_send_unpin(buffered_req.take().unwrap()).unwrap();
+
+                match ready!(si.poll_ready_unpin(cx)) {
+                    Ok(()) => {
+                        // A request that the replier's sink refuses (e.g. one that exceeds the
+                        // frame size limit once tagged) is dropped; a broken sink shows below.
+                        if let Err(e) = si.start_send_unpin(buffered_req.take().unwrap()) {
+                            error!("Failed to send request to replier: {e:?}");
+                        }
+                    }
+                    // The replier's connection failed: unbind it, so that another can bind.
+                    // The request stays buffered for that one.
+                    Err(e) => {
+                        error!("Unbinding broken replier: {e:?}");
+                        *server = None;
+                    }
+                }
             }
 
             // If we've got an error buffered already, we need to write it to the client
@@ -246,7 +259,10 @@ where
 
                     if server.is_some() {
                         let si = &mut server.as_mut().as_pin_mut().unwrap().0;
-                        ready!(si.poll_flush_unpin(cx)).unwrap();
+                        if let Err(e) = ready!(si.poll_flush_unpin(cx)) {
+                            error!("Unbinding broken replier: {e:?}");
+                            *server = None;
+                        }
                     }
                 }
                 // No messages are available at this time
@@ -261,7 +277,10 @@ where
 
                 if server.is_some() {
                     let si = &mut server.as_mut().as_pin_mut().unwrap().0;
-                    ready!(si.poll_flush_unpin(cx)).unwrap();
+                    if let Err(e) = ready!(si.poll_flush_unpin(cx)) {
+                        error!("Unbinding broken replier: {e:?}");
+                        *server = None;
+                    }
                 }
 
                 return Poll::Pending;
